@@ -92,6 +92,11 @@ func DrawFresh(t *rapid.T, now time.Time) Fresh {
 		f.Expires = []string{now.Add(time.Hour).UTC().Format(http.TimeFormat), now.Add(-time.Hour).UTC().Format(http.TimeFormat)}
 	case 7:
 		f.Expires = []string{now.Add(-time.Hour).UTC().Format(time.RFC850)}
+	case 8:
+		// the IMF-fixdate layout with something else than "GMT" in the zone position: not an HTTP-date. The
+		// wall-clock digits lie hours in the future, so a parser that reads them leniently keeps the answer alive
+		zone := rapid.SampledFrom([]string{"UTC", "JST", "EST", "+0000", "+0900", "Z", "gmt"}).Draw(t, "zone")
+		f.Expires = []string{now.Add(3*time.Hour).UTC().Format("Mon, 02 Jan 2006 15:04:05 ") + zone}
 	}
 	if len(f.Expires) > 0 && rapid.IntRange(0, 3).Draw(t, "old-date") == 0 {
 		f.Date = now.Add(-rapid.SampledFrom([]time.Duration{6 * time.Second, 45 * time.Second, time.Hour, 26 * time.Hour}).Draw(t, "date-ago")).UTC().Format(http.TimeFormat)
